@@ -146,6 +146,17 @@ def digest(tab):
     return out
 
 
+def _describe(e):
+    """An exception in a child interpreter: raised by the code under test (innermost frame inside the package) or by the harness?"""
+    import traceback
+
+    frames = traceback.extract_tb(e.__traceback__)
+    inner = frames[-1].filename if frames else ""
+    pkg = any(("/nuspacesim/" in f.filename and "/nssverif/" not in f.filename) for f in frames)
+    tag = "CUT-RAISED " if pkg and not isinstance(e, (KeyboardInterrupt, SystemExit, MemoryError)) else ""
+    return f"{tag}{type(e).__name__}: {e} (innermost frame {inner}:{frames[-1].lineno if frames else 0})"
+
+
 def _child_run(case, q):
     try:
         from nssverif import core
@@ -154,7 +165,7 @@ def _child_run(case, q):
         _, tab = run(case)
         q.put(digest(tab))
     except BaseException as e:  # noqa: BLE001
-        q.put(f"{type(e).__name__}: {e}")
+        q.put(_describe(e))
 
 
 # configuration fields a later run may differ in from an earlier one of the same process, with two values each
@@ -173,6 +184,8 @@ ONE_FIELD = [
     (["simulation", "max_cherenkov_angle"], math.radians(3.0), math.radians(1.2)),
     (["simulation", "max_azimuth_angle"], math.radians(360.0), math.radians(90.0)),
     (["detector", "initial_position", "altitude"], None, 1234.5),
+    # (a band of the same width elsewhere: same array shapes, other table entries)
+    (["detector", "radio", "low_frequency"], 30.0, 100.0, [[["detector", "radio", "high_frequency"], 370.0]]),
 ]
 
 
@@ -202,11 +215,13 @@ def body_one_field(case):
     the same seeded run gives in a fresh interpreter (caches keyed on part of the configuration)."""
     import multiprocessing as mp
 
-    path, v_plain, v_other = ONE_FIELD[case["field"] % len(ONE_FIELD)]
+    entry = ONE_FIELD[case["field"] % len(ONE_FIELD)]
+    path, v_plain, v_other = entry[:3]
+    extra = entry[3] if len(entry) > 3 else []
     if isinstance(v_other, list):  # several alternative values (either side of a threshold): one per case
         v_other = v_other[case.get("alt_pick", 0) % len(v_other)]
     plain = dict(case, tweaks=[] if v_plain is None else [[path, v_plain]])
-    other = dict(case, tweaks=[[path, v_other]])
+    other = dict(case, tweaks=[[path, v_other]] + extra)
     first, second = (other, plain) if case["order"] == 0 else (plain, other)
     if case.get("scan"):
         # the earlier and the later run use ONE configuration object edited in place (sections re-bound / leaf by leaf)
@@ -239,9 +254,13 @@ def body_one_field(case):
             pr.join(60)
             if pr.is_alive():
                 pr.kill()
-    for got in (seq, alone):
-        if isinstance(got, str):
-            raise HarnessError("fresh-interpreter run failed: " + got)
+    if isinstance(alone, str):
+        raise HarnessError("fresh-interpreter run failed: " + alone)
+    if isinstance(seq, str):
+        # the run on its own works in a fresh interpreter; after the earlier run it fails inside the package
+        if seq.startswith("CUT-RAISED "):
+            raise Violation(f"a run that works in a fresh interpreter raises when its process had before run the same configuration except {'.'.join(path)} = {(v_other if case['order'] == 0 else v_plain)!r} instead of {(v_plain if case['order'] == 0 else v_other)!r}: {seq[len('CUT-RAISED '):]}")
+        raise HarnessError("fresh-interpreter run failed: " + seq)
     mine, got = seq[0], alone[0]
     diff = [k for k in mine if got.get(k) != mine[k]] + [k for k in got if k not in mine]
     require(not diff, f"a seeded run differs from the same run in a fresh interpreter in {diff[:6]}; its process had before run the same configuration except {'.'.join(path)} = {(v_other if case['order'] == 0 else v_plain)!r} instead of {(v_plain if case['order'] == 0 else v_other)!r}")
@@ -267,7 +286,7 @@ def _child_sequence(cases, q):
             _, tab = run(c)
         q.put((digest(tab), len(tab), bool("EFields" in tab.colnames and np.any(np.asarray(tab["EFields"]) != 0.0))))
     except BaseException as e:  # noqa: BLE001
-        q.put(f"{type(e).__name__}: {e}")
+        q.put(_describe(e))
 
 
 def body_schedulers(case):
